@@ -507,17 +507,7 @@ theorem stringifyNumFull_total (N : Int) (n : Num) : ∃ t, Display.stringifyNum
   cases n with
   | int k => exact ⟨_, rfl⟩
   | frac q => exact ⟨_, rfl⟩
-  | flt x =>
-    show ∃ t, Display.fmtG 17 x = .ok t
-    unfold Display.fmtG
-    have h17 : ¬ ((17 : Int) < 0) := by decide
-    rw [if_neg h17]
-    dsimp only
-    split
-    · exact ⟨_, rfl⟩
-    · split
-      · exact ⟨_, rfl⟩
-      · split <;> exact ⟨_, rfl⟩
+  | flt x => exact ⟨_, rfl⟩
 
 mutual
 theorem stringify_total (names : List Display.Text) (N : Int) (b : Bool) :
